@@ -10,7 +10,7 @@ verus! {
 //@include env/time_types.vs
 //@include env/time_ops.vs
 //@include env/model_types.vs
-//@include env/broadcast.vs
+//@include env/broadcast_model.vs
 //@include env/model_network_types.vs
 //@include env/model_spec.vs
 //@include env/model_fns.vs
